@@ -1015,7 +1015,8 @@ impl Runner {
                 let prop = match &spec {
                     AutSpec::Always => "C03",
                     AutSpec::Lev(_, _) => "C17",
-                    _ => "C04",
+                    // (C18: pruning by the hints of a built-in automaton must not change the result)
+                    _ => "C04 C18",
                 };
                 let l = line_of(t);
                 self.check(got == want, || {
@@ -1039,7 +1040,7 @@ impl Runner {
             let prop = match &spec {
                 AutSpec::Always => "C03",
                 AutSpec::Lev(_, _) => "C17",
-                _ => "C04",
+                _ => "C04 C18",
             };
             let l = line_of(t);
             let mut bad: Vec<String> = vec![];
